@@ -174,6 +174,7 @@ type world struct {
 	start time.Time
 
 	recv *recvSide
+	gone map[string]bool // source files removed behind the sender's back before they were delivered
 	// receiver generation counter (restarts)
 	recvGen int
 
@@ -318,6 +319,30 @@ func (w *world) writeSource(name string, data []byte, mtime time.Time) *srcVersi
 	vfs.RestampTree(w.outDir, time.Now())
 	w.log.add(wEvent{Kind: "write_source", Name: name, A: int64(len(data)), S: v.MD5})
 	return v
+}
+
+// vanishSource: the file disappears from the outgoing directory behind the
+// sender's back (if it is still there); from then on nobody expects its delivery
+func (w *world) vanishSource(name string) bool {
+	p := filepath.Join(w.outDir, name)
+	if _, err := os.Stat(p); err != nil {
+		return false
+	}
+	w.regMu.Lock()
+	if w.gone == nil {
+		w.gone = map[string]bool{}
+	}
+	w.gone[name] = true
+	w.regMu.Unlock()
+	_ = os.Remove(p)
+	w.log.add(wEvent{Kind: "vanish_source", Name: name})
+	return true
+}
+
+func (w *world) isGone(name string) bool {
+	w.regMu.Lock()
+	defer w.regMu.Unlock()
+	return w.gone[name]
 }
 
 func (w *world) isVersion(name string, md5 string) bool {
